@@ -194,3 +194,51 @@ func onlyConstIndexed(callee *ssa.Function, cc *ssa.CallCommon, v ssa.Value) boo
 	}
 	return constIdx > 0 && other == 0
 }
+
+// ---- C19-E4: a late query error takes both delivery routes on every path.
+//
+// After the 200 header is out, handleQuery has two ways to tell the client that the query failed:
+// an in-band QueryError control frame (only formats with control frames carry it, and only when
+// the client asked for them) and the record kept for GET /query/status/{id}.  Neither route alone
+// reaches every client, so the callback must take both unconditionally.
+func runLateErrorRoutes(c *Ctx, rule string) {
+	p := c.P
+	c.Rule(rule, "the late-error callback of handleQuery writes the in-band error and records it for the status endpoint on every path (neither route alone reaches every client)")
+	hq := p.Func("service.handleQuery")
+	if hq == nil {
+		c.Undecided(rule, "service.handleQuery", "anchor does not resolve")
+		return
+	}
+	n := 0
+	for _, an := range hq.AnonFuncs {
+		if len(an.Params) != 1 || !isError(an.Params[0].Type()) || an.Signature.Results().Len() != 0 {
+			continue
+		}
+		n++
+		for _, want := range []string{"(*service.queryStatus).setError", "(*api/queryio.Writer).WriteError"} {
+			is := func(in ssa.Instruction) bool {
+				ci, ok := in.(ssa.CallInstruction)
+				return ok && calleeName(ci.Common()) == want
+			}
+			isRet := func(in ssa.Instruction) bool { _, ok := in.(*ssa.Return); return ok }
+			construct := "handleQuery late-error callback -> " + want
+			entry := an.Blocks[0].Instrs[0]
+			if is(entry) {
+				c.OK(rule, construct, an.Pos(), "on every path")
+				continue
+			}
+			if hit := reachAvoiding(an, entry, is, isRet); hit != nil {
+				pos := hit.Pos()
+				if !pos.IsValid() {
+					pos = an.Pos()
+				}
+				c.Fail(rule, construct, pos, "a path through the callback returns without "+want+": a run-time error (missing data object, formatter error) then reaches some clients by neither route — HTTP 200, a truncated body and an empty status, where direct access returns the error")
+			} else {
+				c.OK(rule, construct, an.Pos(), "on every path")
+			}
+		}
+	}
+	if n != 1 {
+		c.Undecided(rule, "service.handleQuery", "expected exactly one func(error) callback, found "+sprint(n))
+	}
+}
